@@ -317,6 +317,8 @@ func parserCheck(c *Check, id string) {
 	}
 	// (F2) the lexer indexes its input only at the listed expressions, each with a length guard of a known kind
 	lexerIndexSites(c, r)
+	// (F3) every advance(n) takes at most what is left of the input
+	lexerAdvanceBounded(c, r)
 	// (G) nil-result contract of parse helpers: a helper that may succeed with a nil result only does so when it
 	// was not forced; callers that use the result without a nil test force it
 	nilContract(c, r, files)
@@ -1131,4 +1133,434 @@ func containsStmt(l []ast.Stmt, s ast.Stmt) bool {
 		}
 	}
 	return false
+}
+
+// lexerAdvanceDump is a development aid: lists the advance(...) sites of the lexer with canonical arguments.
+func lexerAdvanceDump(r *repoCtx) []string {
+	var out []string
+	for _, name := range sortedKeys(r.funcs) {
+		fi := r.funcs[name]
+		if !strings.HasPrefix(name, "internal/tlast.") || fi.Decl.Body == nil || filepath.Base(r.co.Fset.Position(fi.Decl.Pos()).Filename) != "tllexer.go" {
+			continue
+		}
+		names := canonLocalNames(fi)
+		ast.Inspect(fi.Decl.Body, func(n ast.Node) bool {
+			call, ok := n.(*ast.CallExpr)
+			if !ok {
+				return true
+			}
+			if fn, _ := typeutil.Callee(fi.Pkg.TypesInfo, call).(*types.Func); fn != nil && fn.Name() == "advance" && len(call.Args) == 2 {
+				out = append(out, fi.Obj.Name()+"/"+canonExpr(fi, names, call.Args[0]))
+			}
+			return true
+		})
+	}
+	return out
+}
+
+// lexerAdvanceTriaged: advance(n) sites whose bound is value-level reasoning the recognisers do not do, keyed by
+// function and canonical length expression, with the reason the length stays within the input.
+var lexerAdvanceTriaged = map[string]string{
+	"lexLexeme/len(local(\"\")) + len(local(nameIdent))": "ns = w + \".\" and w = the identifier that follows the dot: w is a prefix of the input, the byte after it was tested to be the dot, and the second identifier is a prefix of what follows the dot",
+	"lexLexeme/len(local(nameIdent))":                    "w is nameIdent(input), a prefix of the input (its later reassignment to the second identifier happens only on the branch that returns)",
+	"nextToken/local(0)":                                 "i counts bytes of the comment while i != index, and index <= len(input) (an Index result, or len(input) when nothing was found)",
+	"nextToken/local(Index)":                             "index is the smallest non-negative Index/IndexByte result, replaced by len(input) when all are negative",
+	"nextToken/1#after-advance":                          "after advance(i) inside the comment loop: i < index <= len(input) when the invalid byte at i was decoded, so one more byte exists",
+}
+
+// lexerAdvanceBounded: every advance(n, …) of the lexer takes at most what is left of the input (advance slices input[:n]).
+func lexerAdvanceBounded(c *Check, r *repoCtx) {
+	lexFuncs := map[string]*FuncInfo{}
+	for name, fi := range r.funcs {
+		if strings.HasPrefix(name, "internal/tlast.") && fi.Decl.Body != nil && filepath.Base(r.co.Fset.Position(fi.Decl.Pos()).Filename) == "tllexer.go" {
+			lexFuncs[fi.Obj.Name()] = fi
+		}
+	}
+	// prefix functions: f(s string) (string, …) whose every return is s[:i], s or ""
+	prefixFn := map[string]bool{}
+	for name, fi := range lexFuncs {
+		sig := fi.Obj.Type().(*types.Signature)
+		if sig.Recv() != nil || sig.Params().Len() != 1 || sig.Results().Len() == 0 || !isStringType(sig.Params().At(0).Type()) || !isStringType(sig.Results().At(0).Type()) {
+			continue
+		}
+		p := sig.Params().At(0)
+		ok, rets := true, 0
+		ast.Inspect(fi.Decl.Body, func(n ast.Node) bool {
+			rt, isR := n.(*ast.ReturnStmt)
+			if !isR || len(rt.Results) == 0 {
+				return true
+			}
+			rets++
+			switch e := ast.Unparen(rt.Results[0]).(type) {
+			case *ast.SliceExpr:
+				id, isID := e.X.(*ast.Ident)
+				if !isID || fi.Pkg.TypesInfo.Uses[id] != p || e.Low != nil {
+					ok = false
+				}
+			case *ast.Ident:
+				if fi.Pkg.TypesInfo.Uses[e] != p {
+					ok = false
+				}
+			case *ast.BasicLit:
+				if e.Value != `""` {
+					ok = false
+				}
+			default:
+				ok = false
+			}
+			return true
+		})
+		if ok && rets > 0 {
+			prefixFn[name] = true
+		}
+	}
+	isAdvanceLike := func(fi *FuncInfo, call *ast.CallExpr) bool {
+		fn, _ := typeutil.Callee(fi.Pkg.TypesInfo, call).(*types.Func)
+		if fn == nil || fn.Pkg() != fi.Pkg.Types {
+			return false
+		}
+		sig := fn.Type().(*types.Signature)
+		if sig.Recv() == nil {
+			return false
+		}
+		if _, isLex := lexFuncs[fn.Name()]; !isLex {
+			return false
+		}
+		// a lexer method that may consume input; checkPrimitive returns true exactly when it consumed, and its callers return then
+		return fn.Name() != "checkPrimitive"
+	}
+	// consumedBefore: some lexer method that may consume input can run before `at` on a path to it
+	consumedBefore := func(fi *FuncInfo, at ast.Node) bool {
+		found := false
+		var visit func(n ast.Node)
+		visit = func(n ast.Node) {
+			ast.Inspect(n, func(x ast.Node) bool {
+				if found || x == nil {
+					return false
+				}
+				switch b := x.(type) {
+				case *ast.FuncLit:
+					return false
+				case *ast.CaseClause:
+					if !astContains(b, at) {
+						// another case: only its guards are on the path
+						for _, g := range b.List {
+							visit(g)
+						}
+						return false
+					}
+				case *ast.IfStmt:
+					// a branch that does not contain the site is on a path to it only when the site follows the whole
+					// statement and the branch does not end in a return
+					endsInReturn := func(n ast.Node) bool {
+						bl, ok := n.(*ast.BlockStmt)
+						if !ok || len(bl.List) == 0 {
+							return false
+						}
+						_, isRet := bl.List[len(bl.List)-1].(*ast.ReturnStmt)
+						return isRet
+					}
+					if b.Init != nil {
+						visit(b.Init)
+					}
+					visit(b.Cond)
+					inBody := astContains(b.Body, at)
+					inElse := b.Else != nil && astContains(b.Else, at)
+					if inBody || (!inElse && !endsInReturn(b.Body)) {
+						visit(b.Body)
+					}
+					if b.Else != nil && (inElse || (!inBody && !endsInReturn(b.Else))) {
+						visit(b.Else)
+					}
+					return false
+				case *ast.CallExpr:
+					if b.Pos() < at.Pos() && b != at && isAdvanceLike(fi, b) {
+						found = true
+					}
+				}
+				return true
+			})
+		}
+		visit(fi.Decl.Body)
+		return found
+	}
+	// non-empty input at entry: nextToken and checkPrimitive by their verified entry facts; a method all of whose calls
+	// are in nextToken with nothing consumed before the call inherits it
+	nonEmpty := map[string]bool{}
+	for _, f := range []string{"nextToken", "checkPrimitive"} {
+		fact := lexerEntryFacts[f+"/recv.str[0]"]
+		callers, ctxs := lexerCallContext(r, lexFuncs, f)
+		good := len(callers) > 0
+		for i := range callers {
+			if callers[i] != fact.onlyCaller || ctxs[i] != fact.context {
+				good = false
+			}
+		}
+		nonEmpty[f] = good
+	}
+	if nt := lexFuncs["nextToken"]; nt != nil && nonEmpty["nextToken"] {
+		calls := map[string][]*ast.CallExpr{}
+		ast.Inspect(nt.Decl.Body, func(n ast.Node) bool {
+			if call, ok := n.(*ast.CallExpr); ok {
+				if fn, _ := typeutil.Callee(nt.Pkg.TypesInfo, call).(*types.Func); fn != nil && fn.Pkg() == nt.Pkg.Types && lexFuncs[fn.Name()] != nil && fn.Type().(*types.Signature).Recv() != nil {
+					calls[fn.Name()] = append(calls[fn.Name()], call)
+				}
+			}
+			return true
+		})
+		for name, sites := range calls {
+			if name == "advance" || nonEmpty[name] {
+				continue
+			}
+			callers, _ := lexerCallContext(r, lexFuncs, name)
+			only := true
+			for _, cl := range callers {
+				if cl != "nextToken" {
+					only = false
+				}
+			}
+			for _, s := range sites {
+				if consumedBefore(nt, s) {
+					only = false
+				}
+			}
+			nonEmpty[name] = only
+		}
+	}
+	n := 0
+	for _, fname := range sortedKeys(lexFuncs) {
+		fi := lexFuncs[fname]
+		info := fi.Pkg.TypesInfo
+		names := canonLocalNames(fi)
+		inputExpr := func(e ast.Expr) bool { return canonExpr(fi, names, e) == "recv.str" }
+		constStr := func(e ast.Expr) (string, bool) {
+			if tv, ok := info.Types[e]; ok && tv.Value != nil && tv.Value.Kind() == constant.String {
+				return constant.StringVal(tv.Value), true
+			}
+			return "", false
+		}
+		constInt := func(e ast.Expr) (int64, bool) {
+			if tv, ok := info.Types[e]; ok && tv.Value != nil && tv.Value.Kind() == constant.Int {
+				v, exact := constant.Int64Val(tv.Value)
+				return v, exact
+			}
+			return 0, false
+		}
+		// prefixLocal: a local defined once as P(input[k:]) with P a prefix function; returns k
+		prefixLocal := func(e ast.Expr) (int64, bool) {
+			id, ok := ast.Unparen(e).(*ast.Ident)
+			if !ok {
+				return 0, false
+			}
+			obj := info.Uses[id]
+			defs, k, good := 0, int64(0), false
+			ast.Inspect(fi.Decl.Body, func(x ast.Node) bool {
+				as, ok := x.(*ast.AssignStmt)
+				if !ok {
+					return true
+				}
+				for i, l := range as.Lhs {
+					lid, isID := l.(*ast.Ident)
+					if !isID || (info.Defs[lid] != obj && info.Uses[lid] != obj) {
+						continue
+					}
+					defs++
+					if len(as.Rhs) != 1 || (i != 0 && len(as.Lhs) == len(as.Rhs)) {
+						continue
+					}
+					call, isC := ast.Unparen(as.Rhs[0]).(*ast.CallExpr)
+					if !isC || len(call.Args) != 1 || i != 0 {
+						continue
+					}
+					fn, _ := typeutil.Callee(info, call).(*types.Func)
+					if fn == nil || !prefixFn[fn.Name()] {
+						continue
+					}
+					arg := ast.Unparen(call.Args[0])
+					if inputExpr(arg) {
+						k, good = 0, true
+					} else if se, isS := arg.(*ast.SliceExpr); isS && se.High == nil && inputExpr(se.X) {
+						if v, ok := constInt(se.Low); ok {
+							k, good = v, true
+						}
+					}
+				}
+				return true
+			})
+			return k, defs == 1 && good
+		}
+		var stack []ast.Node
+		ast.Inspect(fi.Decl.Body, func(nd ast.Node) bool {
+			if nd == nil {
+				stack = stack[:len(stack)-1]
+				return true
+			}
+			stack = append(stack, nd)
+			call, ok := nd.(*ast.CallExpr)
+			if !ok || len(call.Args) != 2 {
+				return true
+			}
+			if fn, _ := typeutil.Callee(info, call).(*types.Func); fn == nil || fn.Name() != "advance" || fn.Pkg() != fi.Pkg.Types {
+				return true
+			}
+			n++
+			arg := ast.Unparen(call.Args[0])
+			key := fname + "/" + canonExpr(fi, names, arg)
+			consumed := consumedBefore(fi, call)
+			// lower bound on len(input) from dominating guards
+			minLen := int64(0)
+			if nonEmpty[fname] {
+				minLen = 1
+			}
+			var constGuarded []string
+			for i := len(stack) - 2; i >= 0; i-- {
+				var guards []ast.Expr
+				switch p := stack[i].(type) {
+				case *ast.CaseClause:
+					inBody := false
+					for _, st := range p.Body {
+						if astContains(st, call) {
+							inBody = true
+						}
+					}
+					if inBody {
+						guards = p.List
+					}
+				case *ast.IfStmt:
+					if astContains(p.Body, call) {
+						guards = []ast.Expr{p.Cond}
+					}
+				}
+				for _, g := range guards {
+					var conj func(e ast.Expr)
+					conj = func(e ast.Expr) {
+						e = ast.Unparen(e)
+						if be, ok := e.(*ast.BinaryExpr); ok && be.Op == token.LAND {
+							conj(be.X)
+							conj(be.Y)
+							return
+						}
+						if cl, ok := e.(*ast.CallExpr); ok && len(cl.Args) == 2 {
+							if fn, _ := typeutil.Callee(info, cl).(*types.Func); fn != nil && fn.FullName() == "strings.HasPrefix" && inputExpr(cl.Args[0]) {
+								if s, ok := constStr(cl.Args[1]); ok {
+									minLen = max(minLen, int64(len(s)))
+									constGuarded = append(constGuarded, types.ExprString(ast.Unparen(cl.Args[1])))
+								}
+							}
+						}
+						if be, ok := e.(*ast.BinaryExpr); ok && be.Op == token.EQL {
+							if k, isP := prefixLocal(be.X); isP {
+								if s, ok := constStr(be.Y); ok {
+									minLen = max(minLen, k+int64(len(s)))
+								}
+							}
+						}
+					}
+					conj(g)
+				}
+			}
+			ok2, why := false, ""
+			switch {
+			case func() bool { v, isC := constInt(arg); return isC && v == 0 }():
+				ok2, why = true, "takes nothing"
+			case consumed:
+				key += "#after-advance"
+				why = "input may already have been consumed on this path"
+			default:
+				// constant
+				if v, isC := constInt(arg); isC {
+					ok2 = v <= minLen
+					why = fmt.Sprintf("constant %d, input known to hold at least %d bytes here", v, minLen)
+					break
+				}
+				// len(X), c + len(X)
+				terms := []ast.Expr{arg}
+				if be, isB := arg.(*ast.BinaryExpr); isB && be.Op == token.ADD {
+					terms = []ast.Expr{be.X, be.Y}
+				}
+				base, rest := int64(0), ast.Expr(nil)
+				for _, t := range terms {
+					if v, isC := constInt(t); isC {
+						base += v
+					} else if rest == nil {
+						rest = ast.Unparen(t)
+					} else {
+						rest = &ast.BadExpr{}
+					}
+				}
+				if lc, isL := rest.(*ast.CallExpr); isL && len(lc.Args) == 1 {
+					if id, isID := lc.Fun.(*ast.Ident); isID && id.Name == "len" {
+						x := ast.Unparen(lc.Args[0])
+						if k, isP := prefixLocal(x); isP && k == base && base <= minLen {
+							ok2, why = true, fmt.Sprintf("%d + length of a prefix of input[%d:]; input holds at least %d bytes", base, k, minLen)
+						} else if s, isS := constStr(x); isS && base == 0 && containsStr(constGuarded, types.ExprString(x)) {
+							ok2, why = true, "length of the constant "+fmt.Sprintf("%q", s)+" that the input was tested to start with"
+						}
+					}
+				}
+				// loop counter: i := c; for ; i < len(input) && …; i++ {}
+				if id, isID := arg.(*ast.Ident); isID && !ok2 {
+					obj := info.Uses[id]
+					start, defs, loops, other := int64(-1), 0, 0, 0
+					ast.Inspect(fi.Decl.Body, func(x ast.Node) bool {
+						switch s := x.(type) {
+						case *ast.AssignStmt:
+							for i, l := range s.Lhs {
+								if lid, ok := l.(*ast.Ident); ok && (info.Defs[lid] == obj || info.Uses[lid] == obj) {
+									if v, isC := constInt(s.Rhs[min(i, len(s.Rhs)-1)]); isC && s.Tok == token.DEFINE {
+										start = v
+										defs++
+									} else {
+										other++
+									}
+								}
+							}
+						case *ast.ForStmt:
+							inc, isInc := s.Post.(*ast.IncDecStmt)
+							if isInc && inc.Tok == token.INC {
+								if iid, ok := inc.X.(*ast.Ident); ok && info.Uses[iid] == obj {
+									// leftmost conjunct of the condition is i < len(input)
+									cond := s.Cond
+									for {
+										be, ok := cond.(*ast.BinaryExpr)
+										if !ok || be.Op != token.LAND {
+											break
+										}
+										cond = be.X
+									}
+									if be, ok := cond.(*ast.BinaryExpr); ok && be.Op == token.LSS {
+										if lid, ok := be.X.(*ast.Ident); ok && info.Uses[lid] == obj {
+											if lc, ok := be.Y.(*ast.CallExpr); ok && len(lc.Args) == 1 && inputExpr(lc.Args[0]) {
+												loops++
+											}
+										}
+									}
+								}
+							}
+						case *ast.IncDecStmt:
+							if iid, ok := s.X.(*ast.Ident); ok && info.Uses[iid] == obj {
+								other++
+							}
+						}
+						return true
+					})
+					// the loop's own i++ was counted in `other`
+					if defs == 1 && loops == 1 && other == 1 && start >= 0 && start <= minLen {
+						ok2, why = true, fmt.Sprintf("counter starting at %d (input holds at least %d bytes) and stepping only while i < len(input)", start, minLen)
+					}
+				}
+			}
+			if !ok2 {
+				if reason, listed := lexerAdvanceTriaged[key]; listed {
+					ok2, why = true, "triaged: "+reason
+				} else if why == "" || !consumed {
+					why = orStr(why, "") + " — nothing shows that this length is within the remaining input (advance slices input[:n])"
+				}
+			}
+			c.Ob("lexer/advance-length-within-input", key, ok2, r.pos(call.Pos()), strings.TrimSpace(why))
+			return true
+		})
+	}
+	c.Set("lexer_advance_sites", n)
+	c.Floor("lexer/advance-length-within-input", 30)
 }
